@@ -59,6 +59,10 @@ from radical.pilot.agent.staging_output.default import Default as AgentOut
 SID  = 'rp.session.verif'
 PID  = 'pilot.0000'
 UIDS = {'A': 'task.000000', 'B': 'task.000001'}
+UIDS2 = {'A': 'task.000002', 'B': 'task.000003'}      # second generation, same stager objects
+UIDC = 'task.000009'                                  # intermediate task of the 'mvdir' step
+HOST = 'cluster.example.org'                          # the non-local file system endpoint
+SBOX_REL = 'shared_a'                                 # td.sandbox, relative
 LOCS = ['client', 'endpoint', 'resource', 'session', 'pilot']       # + taskA, taskB
 ACTIONS = {'TRANSFER': rpc.TRANSFER, 'COPY': rpc.COPY, 'LINK': rpc.LINK,
            'MOVE': rpc.MOVE, 'TARBALL': rpc.TARBALL}
@@ -75,6 +79,40 @@ OUT_FILES_B = ['bo']
 B_IN  = ['ba',
          {'source': 'pilot:///ba', 'target': 'task:///bc', 'action': rpc.COPY}]
 B_OUT = ['bo']
+
+
+# ------------------------------------------------------------------------------
+class JailBackend(object):
+    '''Transfer back end for a pilot whose file system endpoint is not local:
+    every URL a stager hands over is recorded (schema, host, path) and mapped
+    to a directory standing for the HOST it names -
+        sftp://<HOST>/<path>                 -> <root>/hostB/<path>
+        file://localhost/<path> | <path>     -> <path> if inside the rig's root,
+                                                else <root>/stray/<path>
+        anything else                        -> <root>/stray/<schema>_<host>/<path>
+    and then acted on by the REAL StagingHelper_Local, so that data sent to a
+    same-named path of the wrong host shows up in the wrong tree.'''
+
+    def __init__(self, rig, inner):
+        self.rig, self.inner = rig, inner
+
+    def _map(self, url, op):
+        u = ru.Url(str(url))
+        self.rig.transfers.append([op, str(u.schema or ''), str(u.host or ''), str(u.path)])
+        root, path = self.rig.root, str(u.path)
+        if u.schema == 'sftp' and u.host == HOST:
+            return '%s/hostB%s' % (root, path)
+        if (u.schema or 'file') == 'file' and (u.host or 'localhost') == 'localhost':
+            return path if path.startswith(root + '/') else '%s/stray%s' % (root, path)
+        return '%s/stray/%s_%s%s' % (root, u.schema, u.host, path)
+
+    def mkdir (self, tgt, flags)     : self.inner.mkdir (self._map(tgt, 'mkdir'), flags)
+    def rmdir (self, tgt, flags)     : self.inner.rmdir (self._map(tgt, 'rmdir'), flags)
+    def delete(self, tgt, flags)     : self.inner.delete(self._map(tgt, 'delete'), flags)
+    def copy  (self, src, tgt, flags): self.inner.copy  (self._map(src, 'copy.src'), self._map(tgt, 'copy.tgt'), flags)
+    def move  (self, src, tgt, flags): self.inner.move  (self._map(src, 'move.src'), self._map(tgt, 'move.tgt'), flags)
+    def link  (self, src, tgt, flags): self.inner.link  (self._map(src, 'link.src'), self._map(tgt, 'link.tgt'), flags)
+    def sh_callout(self, url, cmd)   : return self.inner.sh_callout(url, cmd)
 
 
 # ------------------------------------------------------------------------------
@@ -116,7 +154,8 @@ class StagingRig(object):
     def __init__(self, case, keep=False, hooks=None):
         '''
         case : {'din': [directive], 'dout': [directive], 'oc': 'DONE'|'FAILED'|'CANCELED',
-                'soe': bool, 'cs': 'same'|'differs'}     directive = {form, act, sk, sp, tk, tp}
+                'soe': bool, 'cs': 'same'|'differs', 'sb': 'default'|'rel'|'abs',
+                'ep': 'local'|'remote', 'g2': 'none'|'rmdir'|'mvdir'|'file'}     directive = {form, act, sk, sp, tk, tp}
         '''
         self.case      = case
         self.keep      = keep
@@ -127,6 +166,15 @@ class StagingRig(object):
         self.root      = None
         self.inodes    = {}        # (dev, ino) -> small id, stable across snapshots
         self.escaped   = []        # exceptions a component's work() let through
+        self.transfers = []        # URLs handed to the recording back end (remote endpoint)
+        self.ignore    = []        # directories outside the model (intermediate task)
+        self.uids      = dict(UIDS)
+        self.gen       = 1
+        case.setdefault('cs', 'differs')
+        case.setdefault('sb', 'default')
+        case.setdefault('ep', 'local')
+        case.setdefault('g2', 'none')
+        self.remote    = case['ep'] == 'remote'
 
     # --------------------------------------------------------------------------
     # rendering of a model directive in the documented concrete syntax
@@ -199,22 +247,40 @@ class StagingRig(object):
                          'session_sandbox': dict(), 'pilot_sandbox': dict(),
                          'client_sandbox': root + '/client',
                          'js_shells': dict(), 'fs_dirs': dict()}
-        s.get_resource_config = lambda resource, schema=None: {
-            'filesystem_endpoint': 'file://localhost/',
-            'default_remote_workdir': root + '/work'}
+        # endpoint local: the resource's file system is this host's, all
+        # sandboxes live under root.  endpoint remote: sftp://HOST/, sandboxes
+        # under /scratch/user THERE - on disk under <root>/hostB (JailBackend)
+        if self.remote:
+            rcfg = {'filesystem_endpoint': 'sftp://%s/' % HOST,
+                    'default_remote_workdir': '/scratch/user'}
+            pd   = {'resource': 'example.cluster', 'access_schema': 'ssh'}
+            self.jail = root + '/hostB'
+        else:
+            rcfg = {'filesystem_endpoint': 'file://localhost/',
+                    'default_remote_workdir': root + '/work'}
+            pd   = {'resource': 'local.localhost', 'access_schema': 'local'}
+            self.jail = ''
+        s.get_resource_config = lambda resource, schema=None: dict(rcfg)
         self.session = s
-        self.pilot   = {'uid': PID, 'type': 'pilot',
-                        'description': {'resource': 'local.localhost',
-                                        'access_schema': 'local'},
-                        'pilot_sandbox': ''}
+        self.pilot   = {'uid': PID, 'type': 'pilot', 'description': pd, 'pilot_sandbox': ''}
 
-        self.dirs = {
-            'client'  : root + '/client',
+        # logical paths (as the URLs name them) and where they are on disk
+        self.logical = {
             'endpoint': root + '/ep',
             'resource': ru.Url(s._get_resource_sandbox(self.pilot)).path.rstrip('/'),
             'session' : ru.Url(s._get_session_sandbox(self.pilot)).path.rstrip('/'),
             'pilot'   : ru.Url(s._get_pilot_sandbox(self.pilot)).path.rstrip('/'),
         }
+        self.dirs = {'client': root + '/client'}
+        for loc, path in self.logical.items():
+            self.dirs[loc] = self.jail + path
+        if self.remote:
+            self.dirs['stray'] = root + '/stray'      # same-named paths on the wrong host
+            os.makedirs(self.dirs['stray'])
+        # td.sandbox of task A, and where the documentation puts its sandbox
+        self.sandbox = {'default': None, 'rel': SBOX_REL,
+                        'abs': '/scratch/user/campaign/run_7' if self.remote
+                               else root + '/abs_sbox/run_7'}[self.case['sb']]
         for loc in LOCS:
             for f in INIT_FILES:
                 p = os.path.join(self.dirs[loc], f)
@@ -296,6 +362,8 @@ class StagingRig(object):
         stager = getattr(c, '_stager', None)
         if stager is not None and not isinstance(stager._backend, rp_sh.StagingHelper_Local):
             stager._backend = rp_sh.StagingHelper_Local(c._log)     # local back end only
+        if stager is not None and self.remote:
+            stager._backend = JailBackend(self, stager._backend)
         return c
 
     def build(self):
@@ -317,13 +385,16 @@ class StagingRig(object):
         tm = FakeTmgr(self.session)
         c  = self.case
         descr = {
-            'A': {'uid': UIDS['A'], 'executable': '/bin/true',
+            'A': {'uid': self.uids['A'], 'executable': '/bin/true',
                   'input_staging' : [self.render(d) for d in c['din']],
                   'output_staging': [self.render(d) for d in c['dout']],
                   'stage_on_error': bool(c['soe'])},
-            'B': {'uid': UIDS['B'], 'executable': '/bin/true',
-                  'input_staging' : copy.deepcopy(B_IN),
+            'B': {'uid': self.uids['B'], 'executable': '/bin/true',
+                  # no agent side action on a host the rig cannot act on
+                  'input_staging' : copy.deepcopy(B_IN[:1] if self.remote else B_IN),
                   'output_staging': copy.deepcopy(B_OUT)}}
+        if self.sandbox:
+            descr['A']['sandbox'] = self.sandbox
         self.rendered = {'in': descr['A']['input_staging'], 'out': descr['A']['output_staging']}
         tasks = {}
         for k in ('A', 'B'):
@@ -335,8 +406,20 @@ class StagingRig(object):
             td = json.loads(json.dumps(td, default=str))     # crosses process boundaries as data
             self.sched._assign_pilot(td, self.pilot)
             tasks[k] = td
-            self.dirs['task' + k] = ru.Url(td['task_sandbox']).path.rstrip('/')
+            # where the DOCUMENTATION puts the sandbox (not where the code says):
+            # <pilot sandbox>/<uid>, <pilot sandbox>/<td.sandbox>, or the
+            # absolute td.sandbox, on the pilot's file system
+            if k == 'A' and self.case['sb'] == 'abs':
+                where = self.jail + self.sandbox
+            elif k == 'A' and self.case['sb'] == 'rel':
+                where = '%s/%s' % (self.dirs['pilot'], self.sandbox)
+            else:
+                where = '%s/%s' % (self.dirs['pilot'], self.uids[k])
+            self.dirs[self.loc(k)] = where
         return tasks
+
+    def loc(self, k):
+        return 'task%s%s' % (k, '2' if self.gen == 2 else '')
 
     def expanded(self, task):
         out = {}
@@ -355,7 +438,8 @@ class StagingRig(object):
         for loc, top in self.dirs.items():
             nested = [r for l, r in roots if r != top and r.startswith(top + '/')]
             for dp, dns, fns in os.walk(top):
-                dns[:] = sorted(d for d in dns if os.path.join(dp, d) not in nested)
+                dns[:] = sorted(d for d in dns if os.path.join(dp, d) not in nested
+                                                  and os.path.join(dp, d) not in self.ignore)
                 for fn in sorted(fns):
                     full = os.path.join(dp, fn)
                     try:
@@ -379,7 +463,7 @@ class StagingRig(object):
 
     def states(self):
         st = {}
-        for k, uid in UIDS.items():
+        for k, uid in self.uids.items():
             seq = [s for _, u, s in self.published if u == uid]
             st[k] = 'failed' if rps.FAILED in seq else \
                     'done'   if rps.DONE   in seq else \
@@ -419,6 +503,51 @@ class StagingRig(object):
             self.cleanup()
 
     def _run(self):
+        self.generation()
+        if self.case['g2'] != 'none':
+            self.environment()
+            self.gen, self.uids = 2, dict(UIDS2)
+            self.event('Env')
+            self.generation()
+        return {'case': self.case, 'events': self.events, 'escaped': self.escaped,
+                'transfers': self.transfers,
+                'published': [[w, u, s] for w, u, s in self.published]}
+
+    def environment(self):
+        '''between two generations of tasks: the directory the first
+           directive's target lies in disappears (the stager objects stay)'''
+        d   = (self.case['din'] + self.case['dout'])[0]
+        loc = d['tk']
+        top = d['tp'].split('/')[0]
+        D   = os.path.join(self.dirs[loc], top)
+        g2  = self.case['g2']
+        if g2 == 'mvdir' and loc in ('pilot', 'session', 'resource') and os.path.isdir(D):
+            # carried away by a MOVE directive of an intermediate task, through
+            # the same agent input stager
+            tm = FakeTmgr(self.session)
+            td = rp.TaskDescription(from_dict={
+                     'uid': UIDC, 'executable': '/bin/true',
+                     'input_staging': [{'source': '%s:///%s' % (loc, top),
+                                        'target': 'task:///%s' % top, 'action': rpc.MOVE}]})
+            t  = rp_task.Task(tm, td, 'client').as_dict()
+            t['description'] = t['description'].as_dict()
+            t  = json.loads(json.dumps(t, default=str))
+            self.sched._assign_pilot(t, self.pilot)
+            self.ignore.append('%s/%s' % (self.dirs['pilot'], UIDC))
+            t['state'] = rps.AGENT_STAGING_INPUT_PENDING
+            self.call(self.ain, [t])
+            self.pushed = []
+        if os.path.isdir(D):
+            if g2 == 'mvdir':
+                os.makedirs(self.root + '/away', exist_ok=True)
+                os.rename(D, '%s/away/%s_%s' % (self.root, loc, top))
+            else:
+                shutil.rmtree(D)
+        if g2 == 'file':
+            with open(D, 'w') as fh:
+                fh.write('envfile')
+
+    def generation(self):
         tasks = self.make_tasks()
         self.events.append({'ev': 'Expand', 'files': self.snapshot(), 'st': self.states(),
                             'dirs': {k: self.expanded(tasks[k]) for k in ('A', 'B')}})
@@ -438,13 +567,13 @@ class StagingRig(object):
         # output files; task A ends as the case says, B succeeds
         bulk = self.take(rps.AGENT_SCHEDULING_PENDING)
         for t in bulk:
-            k    = 'A' if t['uid'] == UIDS['A'] else 'B'
-            sbox = self.dirs['task' + k]
+            k    = 'A' if t['uid'] == self.uids['A'] else 'B'
+            sbox = self.dirs[self.loc(k)]
             for f in (OUT_FILES if k == 'A' else OUT_FILES_B):
                 p = os.path.join(sbox, f)
                 os.makedirs(os.path.dirname(p), exist_ok=True)
                 with open(p, 'w') as fh:
-                    fh.write('task%s:%s' % (k, f))
+                    fh.write('%s:%s' % (self.loc(k), f))
             # target_state as the executor sets it: from the exit code, or
             # CANCELED by its cancel path while the task runs
             oc = 'DONE' if k == 'B' else self.case['oc']
@@ -464,9 +593,6 @@ class StagingRig(object):
         if bulk:
             self.call(self.tout, bulk)
         self.event('TmgrOut')
-
-        return {'case': self.case, 'events': self.events, 'escaped': self.escaped,
-                'published': [[w, u, s] for w, u, s in self.published]}
 
 
 def run_case(case, keep=False, hooks=None):
